@@ -116,24 +116,15 @@ def proj(H, g):
 # building a state (S->C): canonical builder, verified by the caller through proj()
 # ---------------------------------------------------------------------------
 def build(j, g, cls=xgi.Hypergraph):
+    """Canonical builder: public calls only, except for the id counter, which is set
+    directly.  The caller verifies the result through proj() before using it."""
     H = cls()
     for n, a in zip(j["nak"], j["nattr"]):
         H.add_node(g.node(n), **g.attrs(a, "n"))
-    for e, mem, a in zip(j["edges"], j["e2n"], j["eattr"]):
-        H._edge[g.edge(e)] = set()  # placeholder keeps dict order; filled below
-    # use the public API for content: add_edge with explicit ids
-    H._edge.clear()
-    for e, mem, a in zip(j["edges"], j["e2n"], j["eattr"]):
-        members = [g.node(n) for n in mem]
-        if cls is xgi.SimplicialComplex:
-            H._edge[g.edge(e)] = frozenset(members)
-            for n in members:
-                H._node[n].add(g.edge(e))
-            H._edge_attr[g.edge(e)] = dict(g.attrs(a, "e"))
-        else:
-            with warnings.catch_warnings():
-                warnings.simplefilter("ignore")
-                H.add_edge(members, idx=g.edge(e), **g.attrs(a, "e"))
+    with warnings.catch_warnings():
+        warnings.simplefilter("ignore")
+        for e, mem, a in zip(j["edges"], j["e2n"], j["eattr"]):
+            H.add_edge([g.node(n) for n in mem], idx=g.edge(e), **g.attrs(a, "e"))
     for k, v in g.attrs(j["gattr"], "g").items():
         H[k] = v
     H._edge_uid = itertools.count(j["uid"])
@@ -162,12 +153,16 @@ def _present(seq, rng):
 
 
 def classify(ex):
-    if isinstance(ex, XGIError):  # IDNotFound derives from it? checked below
-        return "liberr"
+    """result class of a raising call: the library's own error type, or the builtin
+    exception family"""
     from xgi.exception import IDNotFound
 
-    if isinstance(ex, IDNotFound):
+    if isinstance(ex, (XGIError, IDNotFound)):
         return "liberr"
+    for base in (TypeError, ValueError, KeyError, IndexError, AttributeError, StopIteration,
+                 RecursionError, ZeroDivisionError, AssertionError):
+        if isinstance(ex, base):
+            return base.__name__
     return type(ex).__name__
 
 
